@@ -21,6 +21,24 @@ def _run_path_graphs(ctx: Ctx) -> Dict[str, Graph]:
     return graphs
 
 
+def _own_attribute_dict(ctx: Ctx, own: Ownership, g: Graph, ev: Ev, obj: ast.AST) -> bool:
+    """The view was given an attribute dictionary of its own (`view.graph = {...}` with a fresh value) before this write."""
+    from ..cfg import find_path
+    base = obj
+    while isinstance(base, ast.Attribute) and base.attr == 'graph':
+        base = base.value
+    bt = sym.term(ctx.p, base, ev.inst)
+    for st in g.evs:
+        if st.kind == 'store' and st.inst is ev.inst and st.info.get('how') != 'item':
+            tgt = st.info['target']
+            if isinstance(tgt, ast.Attribute) and tgt.attr == 'graph' and sym.term(ctx.p, tgt.value, st.inst) == bt:
+                val = st.info.get('value')
+                if val is not None and all(c == 'fresh' for c, _ in own.classify(g, st, val)) \
+                        and find_path(g, st.id, {ev.id}) is not None:
+                    return True
+    return False
+
+
 def rule_shared_writes(ctx: Ctx, out: Collector) -> None:
     """SH-1 / SH-3."""
     own = Ownership(ctx)
@@ -33,6 +51,16 @@ def rule_shared_writes(ctx: Ctx, out: Collector) -> None:
                 continue
             total += 1
             classes = own.classify(g, ev, obj)
+            # writes that land in the attribute dictionary a graph view shares with its root graph: `view.name = ...`
+            # (Graph.name is stored in view.graph) and writes into `view.graph` itself
+            via_view = False
+            if how == 'attribute store .name' or (isinstance(obj, ast.Attribute) and obj.attr == 'graph'):
+                shared_cls = own.classify(g, ev, obj.value if how != 'attribute store .name' else obj, through_views=True)
+                if any(c.startswith('shared') for c, _ in shared_cls) and not any(c.startswith('shared') for c, _ in classes) \
+                        and not _own_attribute_dict(ctx, own, g, ev, obj):
+                    classes = shared_cls
+                    via_view = True
+                    how = how + ' through a graph view (the view shares the attribute dictionary of its root graph)'
             cons = ctx.construct(ev, ev.node if ev.kind != 'call' else ev.node)
             key = cons
             shared = [(c, r) for c, r in classes if c.startswith('shared')]
